@@ -74,7 +74,7 @@ theorem foldl_data (hc : CntOk o) (d : Str) :
     ∀ (st : St) (p : Path) (np : Str) (size : Int) (left amt count fill : Nat) (pr wr : Str),
       st.phase = .data p np size left amt count fill pr wr →
       phaseOk o (.data p np size left amt count fill pr wr) → pr.length = fill → d.length = left →
-      ∃ count' pr' wr', d.foldl (step o) st = afterData st p np size count' pr' wr' ∧
+      ∃ count' pr' wr', d.foldl (step o) st = afterData o st p np size count' pr' wr' ∧
         (if count' ≠ 0 then pr' ++ wr' else wr') = d.reverse ++ (pr ++ wr) := by
   induction d with
   | nil =>
